@@ -30,6 +30,9 @@ CHECKS = {
  "C20": ("DESIGN.md section 5 C20",
    "SMT check (bit-vectors, byte arrays as array terms) of the XorBytes that this toolchain builds (xor_generic.go -> crypto/subtle.XORBytes, Go part executed from SSA): for all lengths 0..n of a and b independently, dst length up to n+3, all start offsets 0..7 inside guard-byte-padded backing arrays, all contents, and the aliasing patterns dst==a and dst==b, the result equals min(len a, len b), dst[i] = a[i]^b[i] on the common prefix and every other byte of the three backing arrays (guard bytes included) is unchanged.",
    "The assembly kernel crypto/subtle.xorBytes cannot be encoded and is replaced by its documented contract, so this check decides the repository's wrapper and the Go part of the standard library function, not the kernel; xor_old.go and xor_arm.go are not compiled by any installed toolchain and are outside the claim. n = 9 quick / 24 thorough."),
+ "C08": ("DESIGN.md section 5 C08, section 2.9",
+   "Symbolic-schedule bounded model checking of the real packetio.Buffer (and deadline) code: R reader goroutines, W writer goroutines, optionally Close and SetReadDeadline(past), one operation each; the scheduler explores product locations of the goroutines (all interleavings that reach the same product location are merged into one symbolic world whose guard is a formula over per-world choice variables), at the granularity of lock / channel / select operations. In every quiescent world the harness asserts: no reader is still parked in Read while a packet is buffered, after Close, or past its deadline; every accepted packet is delivered to exactly one reader or still buffered; EOF only after Close; timeouts only with a passed deadline. Counterexamples (the choice variables of the worlds on the path) are re-executed concretely and replayed natively under a schedule controller on instrumented sources.",
+   "Bounded: 2 readers x 2 writers; 2 readers x 1 writer x Close; 1 reader x 1 writer x deadline (thorough adds 2x2xClose, 2x1xClosexdeadline, 3x2); empty packets, ring allocated before the goroutines start; goroutines atomic between scheduling points; timers/clock are a model; trusted: go/ssa, engine, z3 5.1.0."),
 }
 
 def main():
